@@ -59,14 +59,31 @@ package builder
 //@ emits [C11] "const %s = %d" arg2 == identifier.Value
 //@ emits [C11] "const %s = %d" assert identifier.IDTyp == parser.TERMID
 
+// C07: the text substitution of a semantic action. `$$` becomes the field of the left-hand side's tag in the fresh
+// left-hand-side entry; every `$<digits>` (the WHOLE digit string, as matched by the pattern \$[0-9]+) becomes slot
+// <digits> of the window with the tag of right-hand-side symbol number <digits> - so $n reads the n-th symbol of this
+// very rule through the union field declared for it. (The pattern language itself and ReplaceAllStringFunc calling
+// the function once per match are library behaviour, assumed.)
 //@ func actionCodeReplace
-//@ trusted $$/$n text substitution (regexp, closure): covered by its own clauses under C07, not re-verified at call sites
-//@ props C01 C07 C08
+//@ props_tagged_only C07 C08
+//@ requires vnode != nil && pr != nil && pr.LeftPart != nil
+//@ libarg [C07,C08] "regexp.MustCompile" arg0 == "\\$[0-9]+"
+//@ libarg [C07,C08] "strings.ReplaceAll" arg1 == "$$"
+//@ libarg [C07,C08] "strings.ReplaceAll" arg0 == vnode.GetRules(index - 1).ActionCode
+//@ emits [C07,C08] "dollarDolar.%s" arg1 == pr.LeftPart.Tag
+//@ emits [C07,C08] "Dollar[%s].%s" arg1 == s[1:]
+//@ emits [C07,C08] "Dollar[%s].%s" arg2 == pr.RighPart[atoi(s[1:]) - 1].Tag
 //@ modifies nothing
 
 //@ func actionCodeReplaceTs
-//@ trusted see actionCodeReplace
-//@ props C01 C07 C08
+//@ props_tagged_only C07 C08
+//@ requires vnode != nil && pr != nil && pr.LeftPart != nil
+//@ libarg [C07,C08] "regexp.MustCompile" arg0 == "\\$[0-9]+"
+//@ libarg [C07,C08] "strings.ReplaceAll" arg1 == "$$"
+//@ libarg [C07,C08] "strings.ReplaceAll" arg0 == vnode.GetRules(index - 1).ActionCode
+//@ emits [C07,C08] "dollarDolar.ValType.%s" arg1 == pr.LeftPart.Tag
+//@ emits [C07,C08] "Dollar[%s].ValType.%s" arg1 == s[1:]
+//@ emits [C07,C08] "Dollar[%s].ValType.%s" arg2 == pr.RighPart[atoi(s[1:]) - 1].Tag
 //@ modifies nothing
 
 // one case per rule 1..n-1: `case i`, lhs symbol id, window size == pop count == |rhs|  (C01, C07)
